@@ -1356,6 +1356,15 @@ def rule_posted_kept(ctx: Ctx, prog: Program) -> None:
                     fresh = isinstance(n, (ast.Assign, ast.AnnAssign)) and not isinstance(t, ast.Subscript) and isinstance(n.value, ast.List) and not n.value.elts
                     same = isinstance(n, ast.Assign) and isinstance(n.value, ast.Call) and ast.unparse(n.value.func).split(".")[-1] in ("sorted", "list", "copy", "deepcopy") \
                         and n.value.args and ast.unparse(n.value.args[0]) == ast.unparse(t)
+                    if not same and isinstance(n, ast.Assign) and isinstance(n.value, ast.ListComp) and len(n.value.generators) == 1 and not n.value.generators[0].ifs \
+                            and isinstance(n.value.generators[0].target, ast.Name) and isinstance(n.value.elt, ast.Subscript) \
+                            and ast.unparse(n.value.elt.value) == ast.unparse(t) and ast.unparse(n.value.elt.slice) == n.value.generators[0].target.id:
+                        # [self.propagators[k] for k in order]: kept whole when `order` is a permutation (the result of an argsort / sorted(range(len(..))))
+                        itx = n.value.generators[0].iter
+                        if isinstance(itx, ast.Name):
+                            ds = [a_.value for a_ in ast.walk(f.node) if isinstance(a_, ast.Assign) and len(a_.targets) == 1 and isinstance(a_.targets[0], ast.Name) and a_.targets[0].id == itx.id]
+                            itx = ds[0] if len(ds) == 1 else itx
+                        same = isinstance(itx, ast.Call) and ast.unparse(itx.func).split(".")[-1] in ("argsort", "sorted", "lexsort")
                     if same:
                         ctx.ok("R-POSTED-KEPT", f"{f.qualname}: the list of constraints is re-ordered / copied as a whole", nontrivial=False)
                     elif fresh and f.name == "__init__":
